@@ -2,72 +2,97 @@
 # Delivered as a function for the owner of vlib/props/C02.py:  from vlib.props._c02fmt import fmt_obs
 from vlib.runner import Ob
 
-FM = dict(harness="h_c02fmt.c", units=["src/lang.c", "src/hamm.c"],
-          stubs=["struct caption carved out of vbi_decoder (include guard CC_H + dummy)",
-                 "vbi_decoder: static zero object, vt.max_level and vt.default_magazine.extension set directly to the EN 300 706 A.5 defaults "
-                 "(ttx_extension_init) - vbi_teletext_init is not run",
-                 "vbi_transp_colormap: plain palette copy (colours are compared as indices)",
-                 "snprintf (CBMC only): constant text of the page number in row 0 (row 0 is not compared)",
-                 "cache get/unref, vbi_convert_page: stubs, unreachable at Level 1 without navigation",
-                 "native build: -fsanitize=bounds off for teletext.c functions only (raw[0][i] flat indexing, see ub_notes)"])
-
-# vbi_format_vt_page() reads the page as vtp->data.lop.raw[0][i], i up to 999: index >= 40 into the first uint8_t[40] row of
-# raw[26][40].  Inside the enclosing object (shown by the exact-size page object: pointer/object-size checks stay on),
-# standard-level UB only -> ub_note, never a verdict (DESIGN 3.2).
-IGN_FLAT = [r"teletext\.c:vbi_format_vt_page:array.*raw.*upper bound"]
-
-ROW_UNW = {"vbi_format_vt_page.0": 41, "vbi_format_vt_page.1": 42, "vbi_format_vt_page.2": 4,
-           "vbi_teletext_unicode.0": 14, "column_41.0": 25, "column_41.1": 25, "column_41.2": 25}
+FM = dict(harness="h_c02fmt.c", units=["src/lang.c", "src/hamm.c"])
+ST_ROW = ["models/c02fmt_carve.h: struct caption (168 KB) and the packet assembly buffers of struct teletext (45 KB) carved out of vbi_decoder through "
+          "the include guards of cc.h / teletext_decoder.h (teletext.c names neither)",
+          "vbi_decoder: static zero object, vt.max_level and vt.default_magazine.extension set directly to the EN 300 706 A.5 defaults "
+          "(what ttx_extension_init builds) - vbi_teletext_init is not run",
+          "page object: typed replica of cache_page with raw[26][40] declared flat (the formatter indexes raw[0][0..999]) and a guard area after data.lop "
+          "(nondeterministic under CBMC, ASan-poisoned natively): a LOP is allocated with cache_page_size() bytes",
+          "vbi_transp_colormap: plain palette copy (colours are compared as indices)",
+          "snprintf (CBMC only): constant text of the page number in row 0 (goto-cc drops the side effect of printf-family calls)",
+          "cache get/unref, vbi_convert_page: stubs, unreachable at Level 1 without navigation",
+          "native build: -fsanitize=bounds off for the functions of teletext.c only (raw[0][i] flat indexing, i >= 40, is standard-level UB inside data.lop)"]
+ST_CS = ["same translation unit as the row obligations (src/teletext.c included, type carving as above), decoder and vbi_page objects compiled out"]
+ROWDEF = {"C02FMT_ROWS": None, "KNOWN_C02_HELD_MOSAIC_NO_RESET": 1}
+# raw_flat[1040] must be field sensitive (constant propagation of the concrete rows), text[1056] must not be (cheap struct stores)
+FS1040 = ["--max-field-sensitivity-array-size", "1040"]
+FS1056 = ["--max-field-sensitivity-array-size", "1056"]
+ENC = ["vbi_format_vt_page", "character_set_designation", "screen_color", "column_41", "vbi_teletext_unicode", "vbi_unpar8"]
+ASSUMES = ["characters and attributes in the cell covered by a double width/size character are processed serially (take effect, update the held mosaic) "
+           "but are not displayed",
+           "a held mosaic that is SPACE may be delivered as U+0020 or as the blank G1 mosaic U+EE20/U+EE00",
+           "double height / double size codes are not transmitted in the header row and in row 24 (EN 300 706 12.2): the harness sends SPACE instead",
+           "glyphs with more than one defensible Unicode are accepted in either form (long dash, double bar, Polish Z with stroke)"]
+OUT_ROW = ("held mosaic reset on alpha/mosaic or size change: guarded by KNOWN_C02_HELD_MOSAIC_NO_RESET (decided by fmt_l1_held_reset); size of a double "
+           "width/size character starting in column 39; reserved national option 7; foreground/background CLUT offsets other than 0; C7/C10 flags; "
+           "X/26 enhancement and X/28 extension (Level 1.5+); rows between the first and the last")
+ROW_DESC = ("vbi_format_vt_page(Level 1, navigation off) on a plain LOP whose row %s carries arbitrary 7-bit codes with odd parity, "
+            "an arbitrary subset of them hit by a parity error; page flags C5/C6 arbitrary: every one of the 40 cells of the row equals the "
+            "reference transcription of EN 300 706 12.2 Table 26 - character (Latin G0 through Table 36 for the header's national option, G1 mosaic in "
+            "contiguous/separated form, held mosaic, space for attributes and parity errors), foreground, background, flash, conceal, boxing (opacity), size "
+            "incl. the cell covered by a double width character, no other attribute; set-at vs set-after timing; start-of-row defaults; ESC switches to the "
+            "second G0; fonts follow the national option; frame: neighbouring rows, the tail of text[] and the members around it untouched")
 
 
 def fmt_obs():
     o = {}
-    row_desc = ("vbi_format_vt_page(Level 1, display_rows 2, navigation off) on an exact-size LOP whose row 1 carries FMT_NSYM arbitrary 7-bit codes "
-                "(columns FMT_FIRST..) with odd parity, an arbitrary set of them hit by a parity error, spaces elsewhere; page flags C5/C6 arbitrary: every "
-                "one of the 40 cells equals the reference transcription of EN 300 706 12.2 Table 26 - character (Latin G0 through Table 36 for the header's "
-                "national option, G1 mosaic in contiguous/separated form, held mosaic, space for attributes and parity errors), foreground, background, flash, "
-                "conceal, boxing (opacity), size incl. the cell covered by a double width/size character; set-at vs set-after timing; start-of-row defaults; "
-                "ESC switches to the second G0; double height/size: row 2 shows the lower halves / blanks with the upper background and "
-                "double_height_lower bit 2, otherwise row 2 of the output stays untouched; fonts follow the national option")
-    row_bounds = ("one row (row 1), window of FMT_NSYM symbolic columns at FMT_FIRST (grid), other columns SPACE; national option and second G0 from the grid "
-                  "(region 0 options 0..6; second G0 = Polish in one instance); Level 1 only (no X/26 enhancement, no X/28 extension)")
-    row_out = ("held mosaic reset on alpha/mosaic or size change: guarded by KNOWN_C02_HELD_MOSAIC_NO_RESET (see fmt_l1_held_reset); size of a double "
-               "width/size character starting in column 39; lower row when a double height code is present but no cell is displayed double height; "
-               "reserved national option 7; foreground/background CLUT offsets other than 0; C7/C10 flags; rows 0 and 2..24")
-    Q = [dict(FMT_FIRST=0, FMT_NSYM=10, FMT_NATIONAL=0, FMT_SECOND=8),
-         dict(FMT_FIRST=30, FMT_NSYM=10, FMT_NATIONAL=1, FMT_SECOND=0)]
-    T = [dict(FMT_FIRST=f, FMT_NSYM=14, FMT_NATIONAL=n, FMT_SECOND=s)
-         for (f, n, s) in ((0, 0, 8), (13, 2, 0), (26, 3, 0), (0, 4, 0), (26, 5, 0), (13, 6, 0), (26, 1, 0))]
-    o["row"] = Ob("fmt_l1_row", func="h_fmt_row", unwind=45, unwindset=ROW_UNW, vin_size=64,
-        defines={"KNOWN_C02_HELD_MOSAIC_NO_RESET": 1},
-        desc=row_desc, encodes=["vbi_format_vt_page", "character_set_designation", "screen_color", "column_41", "vbi_teletext_unicode", "vbi_unpar8"],
-        bounds=row_bounds, outside=row_out,
-        assumes=["characters and attributes in the cell covered by a double width/size character are processed serially but not displayed",
-                 "a held mosaic that is SPACE may be delivered as U+0020 or as the blank G1 mosaic U+EE20/U+EE00"],
-        reach=["end", "double_height", "single_height", "held_mosaic", "boxed", "double_width", "parity_error"],
-        grid=T, quick_grid=Q, ignore=IGN_FLAT, timeout=600, mem_gb=6, **FM)
-    o["held_reset"] = Ob("fmt_l1_held_reset", func="h_fmt_held_reset", unwind=45, unwindset=ROW_UNW, vin_size=64,
-        desc="strict held mosaic rule of Table 26 (1/E): six arbitrary codes out of {colour codes, hold, release, normal size, double height, characters}: wherever a "
-             "held mosaic is displayed after a change of alphanumerics/mosaics mode or of size and before a new mosaic character, it is SPACE "
-             "(EXPECTED TO BE REFUTED on the current tree: vbi_format_vt_page never resets held_mosaic_unicode; suspected defect, see report)",
-        encodes=["vbi_format_vt_page"], bounds="six symbolic columns at the start of row 1", reach=["end", "reset"],
-        ignore=IGN_FLAT, timeout=300, mem_gb=4, **FM)
-    o["cs_latin"] = Ob("cs_latin_g0", func="h_cs_latin", unwind=15, vin_size=16, reach=["end", "invariant", "national"],
+    # full rows: all 32 transmitted columns of the header row / all 40 columns of row 24 symbolic
+    hq = [dict(FMT_ROW=0, FMT_FIRST=8, FMT_NSYM=32, FMT_NATIONAL=0, FMT_SECOND=8),
+          dict(FMT_ROW=0, FMT_FIRST=8, FMT_NSYM=32, FMT_NATIONAL=1, FMT_SECOND=0)]
+    ht = hq + [dict(FMT_ROW=0, FMT_FIRST=8, FMT_NSYM=32, FMT_NATIONAL=n, FMT_SECOND=0) for n in (2, 3, 4, 5, 6)]
+    o["header_row"] = Ob("fmt_l1_header_row", func="h_fmt_row", unwind=70, vin_size=64, defines=ROWDEF, flags=FS1040,
+        desc=ROW_DESC % "0 (display_rows 1; columns 0..7 are the decoder's own page number text)", encodes=ENC,
+        bounds="one row (the header row), all 32 transmitted columns 8..39 symbolic (7 bit code + parity error flag each); national option and second G0 "
+               "from the grid (quick: English + Polish as second G0, German; thorough: region 0 options 0..6); Level 1",
+        outside=OUT_ROW, assumes=ASSUMES, stubs=ST_ROW,
+        reach=["end", "held_mosaic", "boxed", "double_width", "parity_error", "second_g0"],
+        grid=ht, quick_grid=hq, timeout=600, mem_gb=4, **FM)
+    lq = [dict(FMT_ROW=24, FMT_FIRST=0, FMT_NSYM=40, FMT_NATIONAL=2, FMT_SECOND=0)]
+    lt = lq + [dict(FMT_ROW=24, FMT_FIRST=0, FMT_NSYM=40, FMT_NATIONAL=0, FMT_SECOND=8)] \
+            + [dict(FMT_ROW=24, FMT_FIRST=0, FMT_NSYM=40, FMT_NATIONAL=n, FMT_SECOND=0) for n in (1, 3, 4, 5, 6)]
+    o["last_row"] = Ob("fmt_l1_last_row", func="h_fmt_row", unwind=70, vin_size=64, defines=ROWDEF, flags=FS1040,
+        desc=ROW_DESC % "24 (display_rows 25, rows 1..23 transmit spaces and must come out as white-on-black spaces)", encodes=ENC,
+        bounds="one row (row 24) of a 25 row page, all 40 columns symbolic (7 bit code + parity error flag each), rows 1..23 SPACE; national option from the "
+               "grid (quick: Swedish/Finnish; thorough: options 0..6, Polish as second G0 once); Level 1",
+        outside=OUT_ROW, assumes=ASSUMES, stubs=ST_ROW,
+        reach=["end", "held_mosaic", "boxed", "double_width", "parity_error", "second_g0"],
+        grid=lt, quick_grid=lq, timeout=900, mem_gb=6, **FM)
+    o["double_height"] = Ob("fmt_l1_double_height", func="h_fmt_row", unwind=70, vin_size=64, defines=ROWDEF, flags=FS1056,
+        desc="double height / double size (row 1, display_rows 2): three concrete rows which go through every size transition (normal, double height, double "
+             "width, double size, size codes inside covered cells, boxes, mosaics, held mosaics, conceal, flash), national option 0..6 and flags C5/C6 symbolic: "
+             "row 1 equals the Table 26 reference incl. sizes; row 2 holds the lower halves (DOUBLE_HEIGHT2 / DOUBLE_SIZE2 + OVER_BOTTOM with the anchor's "
+             "character and attributes) and, below normal height cells, spaces with the upper cell's background and opacity - the transmitted row 2 is "
+             "suppressed; double_height_lower == 1<<2; rows 3, 4 and the frame untouched",
+        encodes=ENC,
+        bounds="row content concrete (grid FMT_PLAN 0..2), symbolic: national option 0..6, C5, C6.  A symbolic byte anywhere in the row makes the formatter's "
+               "lower-row column index symbolic (it advances by the size read back from the 9 KB vbi_page): measured intractable (8 symbolic columns: "
+               "> 10 GB, no verdict in 10 min with minisat / z3, arrays flattened or not)",
+        outside="double height rows with arbitrary content; " + OUT_ROW, assumes=ASSUMES, stubs=ST_ROW,
+        reach=["end", "double_height"],
+        grid=[dict(FMT_ROW=1, FMT_PLAN=k) for k in (0, 1, 2)], quick_grid=[dict(FMT_ROW=1, FMT_PLAN=0)], timeout=900, mem_gb=3, **FM)
+    o["held_reset"] = Ob("fmt_l1_held_reset", func="h_fmt_held_reset", unwind=70, vin_size=64, defines={"C02FMT_ROWS": None}, flags=FS1040,
+        desc="strict held mosaic rule of Table 26 (1/E): six arbitrary codes out of {colour codes, hold, release, normal size, double width, characters} in the "
+             "header row: wherever a held mosaic is displayed after a change of alphanumerics/mosaics mode or of size and before a new mosaic character, it "
+             "is SPACE.  EXPECTED TO BE REFUTED on the current tree (vbi_format_vt_page never resets held_mosaic_unicode) - suspected defect, see report",
+        encodes=["vbi_format_vt_page"], bounds="six symbolic columns 8..13 of the header row", reach=["end", "reset"], stubs=ST_ROW,
+        timeout=300, mem_gb=3, **FM)
+    o["cs_latin"] = Ob("cs_latin_g0", func="h_cs_latin", unwind=45, vin_size=16, reach=["end", "invariant", "national"],
         desc="vbi_teletext_unicode(LATIN_G0, n, c) for every national sub-set n of the library and every code 0x20..0x7F: codes outside the 13 national option "
              "positions map to themselves (7/F -> U+25A0); the 13 positions equal the transcription of EN 300 706 Table 36 for English, German, "
              "Swedish/Finnish/Hungarian, Italian, French, Portuguese/Spanish, Czech/Slovak, Polish, Estonian; never 0, always UCS-2",
-        encodes=["vbi_teletext_unicode"], bounds="none (14 x 96 cases symbolic)",
-        outside="Table 36 rows not transcribed (Lettish/Lithuanian, Rumanian, Serbian/Croatian/Slovenian, Turkish) are checked for non-zero only",
+        encodes=["vbi_teletext_unicode"], bounds="none (14 x 96 cases symbolic)", stubs=ST_CS,
+        outside="Table 36 rows not transcribed (Lettish/Lithuanian, Rumanian, Serbian/Croatian/Slovenian, Turkish) and NO_SUBSET are checked for non-zero only",
         timeout=120, mem_gb=2, **FM)
-    o["cs_all"] = Ob("cs_all_sets", func="h_cs_all", unwind=15, vin_size=16, reach=["end", "g0"],
+    o["cs_all"] = Ob("cs_all_sets", func="h_cs_all", unwind=45, vin_size=16, reach=["end", "g0"],
         desc="vbi_teletext_unicode for every character set of section 15 (G0, G2, G1, G3), every sub-set, every code: total (no table read outside), result non-zero "
              "and UCS-2; every G0 set maps 2/0 to space, 3/0..3/9 to the digits, 7/F to U+25A0; G1/G3 map to the documented private codes",
         encodes=["vbi_teletext_unicode"], bounds="none (13 sets x 14 sub-sets x 96 codes symbolic); G1 codes 4/0..5/F excluded (documented precondition)",
-        timeout=120, mem_gb=2, **FM)
+        stubs=ST_CS, timeout=120, mem_gb=2, **FM)
     o["designation"] = Ob("cs_designation", func="h_cs_designation", unwind=45, vin_size=16, reach=["end", "defined", "reserved"],
         desc="character_set_designation for every pair of 7-bit designation codes and every C12-C14 value: the font is an entry of vbi_font_descriptors with usable "
-             "G0/G2; if Table 32 defines (region of the code, header option) that entry is chosen, else if it defines the code as transmitted that one; the chosen "
+             "G0/G2 (never outside the 88 entry table); if Table 32 defines (region of the designation code, C12-C14 option) that entry is chosen and its "
              "descriptor carries the G0/G2/sub-set of the Table 32 row (transcribed in the harness)",
-        encodes=["character_set_designation"], bounds="none (128 x 128 x 8 symbolic)",
-        outside="choice among reserved entries of Table 32 (only: a usable font results)", timeout=120, mem_gb=2, **FM)
+        encodes=["character_set_designation"], bounds="none (128 x 128 x 8 symbolic)", stubs=ST_CS,
+        outside="combinations Table 32 reserves (only: a usable font results; the library falls back to the code as transmitted, then to English)", timeout=120, mem_gb=2, **FM)
     return o
